@@ -316,8 +316,13 @@ pub fn cmd_check(prop: &str, tier: &str, rest: &[String]) -> i32 {
             }));
         }
         for h in handles {
-            if h.join().is_err() {
-                eprintln!("harness error: worker thread panicked");
+            if let Err(e) = h.join() {
+                let msg = e
+                    .downcast_ref::<String>()
+                    .cloned()
+                    .or_else(|| e.downcast_ref::<&str>().map(|s| s.to_string()))
+                    .unwrap_or_default();
+                eprintln!("harness error: worker thread panicked: {} [{}]", msg, crate::sim::last_panic());
                 return 2;
             }
         }
